@@ -307,7 +307,7 @@ def run(ctx):
             c = byid[v["id"]]
             op = c["steps"][v["at"] - 1]["op"] if c["kind"] == "hist" and v["at"] else {}
             ctx.report("C20." + v["why"], {"why": v["why"], "op": op.get("op", c["kind"])},
-                       {"kind": c["kind"], "case": c if c["kind"] == "hex" else {"ops": [s["op"] for s in c["steps"]], "failing_step": c["steps"][v["at"] - 1] if v["at"] else None}, "verdict": v})
+                       {"kind": c["kind"], "case": c if c["kind"] in ("hex", "hexlong") else {"ops": [s["op"] for s in c["steps"]], "failing_step": c["steps"][v["at"] - 1] if v["at"] else None}, "verdict": v})
     ctx.cov["evaluations"] += len(vs)
     ctx.cov["traces_validated_against_impl"] += len(vs)
     ctx.cov["distinct_nontrivial"] = nt
